@@ -504,6 +504,72 @@ func (h *hand) exec(op opSpec) (err error) {
 	return err
 }
 
+// seatForced: Player(i).PayAnte() / Player(i).PayBlinds() called OUTSIDE the ante / blinds phase (the per-seat entry
+// points of the forced bets carry their own phase check; inside the phase they are plumbing of Game.PayAnte / PayBlinds
+// and stay outside the alphabet, DESIGN §5).  Must be refused and change nothing (C04), also after the hand is closed (C06).
+func (h *hand) seatForced(kind string, i int) {
+	if h.dead {
+		return
+	}
+	gs := h.g.GetState()
+	ev := gs.Status.CurrentEvent
+	if i < 0 || i >= len(gs.Players) || (kind == "seatante" && ev == "AnteRequested" && gs.Meta.Ante != 0) || (kind == "seatblinds" && ev == "BlindsRequested") {
+		return
+	}
+	pre := copyState(gs)
+	line := fmt.Sprintf("op %s %d", kind, i)
+	err, pan := safely(func() error {
+		if kind == "seatante" {
+			return h.g.Player(i).PayAnte()
+		}
+		return h.g.Player(i).PayBlinds()
+	})
+	if pan {
+		h.dead = true
+		h.o.Emit(line, "st err=panic")
+		h.o.Violate("C06", "panic", "operation panicked: "+line)
+		return
+	}
+	h.o.Emit(line, gameStr("st", gs, errName(err)))
+	h.o.Count("engine.seat_forced_probes")
+	if err == nil {
+		h.o.Violate("C04", "wrong_phase_refused", fmt.Sprintf("%s was accepted at event %s", line, ev))
+		if ev == "GameClosed" {
+			h.o.Violate("C06", "closed_final", "a closed hand accepted "+line)
+		}
+	}
+	if !sameState(pre, gs) {
+		h.o.Violate("C04", "refused_no_effect", fmt.Sprintf("%s at event %s (returned %s) changed the state", line, ev, errName(err)))
+		if ev == "GameClosed" {
+			h.o.Violate("C06", "closed_final", "a closed hand was changed by "+line)
+		}
+	}
+}
+
+// noise: a call of one of the package's constructors of options / decks while the hand is running; the result is
+// thrown away.  It has no effect on the hand (C07: the same deck and the same operations lead to the same state) unless
+// the package keeps shared mutable state behind them.
+func (h *hand) noise(k int) {
+	if h.dead {
+		return
+	}
+	safely(func() error {
+		switch k % 4 {
+		case 0:
+			_ = pokerface.NewStardardGameOptions()
+		case 1:
+			_ = pokerface.NewShortDeckGameOptions()
+		case 2:
+			_ = pokerface.NewStandardDeckCards()
+		default:
+			_ = pokerface.NewShortDeckCards()
+		}
+		return nil
+	})
+	h.o.Emit(fmt.Sprintf("noise %d", k%4), "ok")
+	h.o.Count("engine.noise_calls")
+}
+
 // view: the redacted state for one seat ("obs" = the observer) (C15).
 func (h *hand) view(who string) {
 	if h.dead {
